@@ -437,6 +437,19 @@ def c03(tier, seed):
                     mbs.append(pg.coded_mb(rng, k, ver == 1, mvd=mvd, big=False))
             p["mbs"] = mbs
             H.decode(p)
+    # (b') predicted pictures enumerated by TLC itself: GenPictures.tla appends one macroblock per action (type x pattern
+    #      class x differential x DQUANT); every two-macroblock picture of that model is exported (298^2 = 88 804)
+    tlc_pics = run_gen_bfs(run, "MCGenPictures", "MCGenPictures")
+    run.notes["pictures_enumerated_by_tlc"] = len(tlc_pics)
+    if tier == "quick":
+        rng.shuffle(tlc_pics)
+        tlc_pics = tlc_pics[:1500]
+    for i, g in enumerate(tlc_pics):
+        if i % 25 == 0:
+            start(32, 16, 0)        # a fresh reference every 25 pictures; in between the chain continues
+        p = dict(sor_hdr(rng, "P", (i % 250) + 1, 32, 16, 0))
+        p["mbs"] = g["mbs"]
+        H.decode(p)
     # (c) truncation after every macroblock of a 3x2 picture; sizes that are not multiples of 16
     for ver in (0, 1):
         for cut in range(0, 7):
